@@ -87,7 +87,7 @@ pub fn check(ls: &LangSet, s: &str, filler: &str) -> Verdict {
 
 pub fn run(ctx: &Ctx) -> Outcome {
     let n_texts = ctx.n(1_500_000, 30_000_000);
-    let rep = run_sharded(ctx, |w, nw, rep| {
+    let mut rep = run_sharded(ctx, |w, nw, rep| {
         let ls = LangSet::new();
         let lex = ls.lexicon("en");
         let mut rng = Rng::derive(ctx.seed, "C18", w as u64);
@@ -112,6 +112,9 @@ pub fn run(ctx: &Ctx) -> Outcome {
             }
         }
     });
+    if !ctx.quick() {
+        super::legs::fuzz_leg(ctx, &mut rep, 45);
+    }
     let rule = "cases = English texts of 1..9 tokens over {o, O, number words, fillers, linking words, punctuation} joined by ASCII or Unicode whitespace; for each o the nearest non-whitespace neighbours are classified by the running library (is it accepted on a fresh builder?); the text with qualifying o -> zero and other o -> filler must give identical occurrences at thresholds 0,5,10; texts in which an o has only other o's as number-like neighbours are skipped (circular); non-trivial = text containing a judged o";
     finish(ctx, rep, rule, &["'is a number word' is asked of the running library through LangInterpreter::apply on a fresh builder"], vec![])
 }
